@@ -501,8 +501,25 @@ pub fn analyse_built(
         }
     }
     if do03 {
+        // binding of the recorder to the scanner: a recorded output that appears verbatim (modulo
+        // the lookaheads attached afterwards) in the final dump is an automaton the scanner uses
+        let strip = |d: &DfaDump| {
+            let mut x = d.clone();
+            x.lookaheads.clear();
+            x
+        };
+        let mut used: Vec<DfaDump> = vec![];
+        for m in &dump.modes {
+            used.push(strip(&m.dfa));
+            for l in &m.dfa.lookaheads {
+                used.push(strip(&l.2));
+            }
+        }
         for (k, (a, b)) in log.iter().enumerate() {
             out.pairs03 += 1;
+            if used.contains(&strip(b)) {
+                out.stats03.traces_validated += 1;
+            }
             let where_ = format!("minimizer call #{k} (patterns {:?})", a.patterns);
             if let Some(s) = structural(b, dump.classes.len()) {
                 // an accepting start state of the *input* is not the minimizer's fault
